@@ -49,6 +49,9 @@ type GBatchSc struct {
 	PreBudget int    `json:"preBudget,omitempty"`
 	PreStop   bool   `json:"preStop,omitempty"`
 	PreVia    string `json:"preVia,omitempty"`
+	// WaitMs > 0: the node has a retry wait (harness-only: the gated observation has no wait events; the wait only moves a
+	// retried attempt in time, it must not move it off the worker that owns the item)
+	WaitMs int `json:"waitMs,omitempty"`
 }
 
 type GBatchObs struct {
@@ -164,7 +167,7 @@ func execGBatch(sc *GBatchSc, choose chooser) (GBatchObs, []string) {
 		return GBatchObs{Phases: [][][2]int{}, Items: "-", Slots: "-", Out: "H"}, []string{"bad:skipped-after-hangs"}
 	}
 	cfg := BatchCfg{Budget: sc.Budget, Fb: sc.Fb, Conc: sc.Conc, Stop: sc.Stop, ExecS: sc.ExecS, HasPost: true,
-		Shape: "results", Build: "builder", ExecVia: sc.ExecVia}
+		Shape: "results", Build: "builder", ExecVia: sc.ExecVia, Wait: sc.WaitMs}
 	if sc.Build == "option" {
 		cfg.Build = "option"
 	}
@@ -541,6 +544,9 @@ func genGBatch(r *rng, thorough bool, shard, shards int, jl *jobList) {
 		prep, items := gItems(t, n, budget, mask, r.chance(50), func(i int) bool { return rr.chance(50) }, es)
 		base := GBatchSc{N: n, Conc: c, Stop: r.chance(50), Budget: budget, Fb: fbk, ExecS: es, Kind: r.pick([]string{"canceled", "deadline", "cause", "fardeadline", "child"}), Prep: prep, Items: items,
 			Build: r.pick([]string{"builder", "option"}), ExecVia: r.pick([]string{"", "", "copt", "cbuilder"})}
+		if budget >= 2 && r.chance(30) {
+			base.WaitMs = 1 + r.intn(2)
+		}
 		switch it % 5 {
 		case 1, 3: // the node has been run before with a different concurrency (and budget / error mode), then re-configured
 			base.Pre = 1 + r.intn(6)
